@@ -267,6 +267,33 @@ def rule_r1(repo, tier):
         if br != nb or bw != nb:
             rr.fail('dispatch:%s' % t, fi.where, 'type %s with nbits=%d: the reader consumes %s bits (%s), the writer produces %s bits (%s)' % (
                 t, nb, br, [e[1] for e in r.events if e[0] == 'read'], bw, wr))
+    # the generic dispatcher is the typed method: read(t, n) / write(v, t, n) leave the same stream operations and the same result as
+    # read_t / write_t called directly (for every typed method the reader / writer has, not only the types the bundled layouts use)
+    typed = sorted(set(m[5:] for m in repo.cls('BitReader').methods if m.startswith('read_') and m != 'read_uint_or_none') | types)
+    for t in typed:
+        if t not in samples:
+            raise AnalysisError('the bit reader has a typed method read_%s which the bit-level rules do not model' % t)
+        val, nb = samples[t]
+        direct_args = [] if t == 'bool' else [nb // 8] if t == 'bytes' else [nb]
+        rr.instance('generic dispatch of type %s is the typed method' % t)
+        if repo.method(R, 'read_' + t, required=False) is None or repo.method(W, 'write_' + t, required=False) is None:
+            continue
+        for side, cls, gen, gargs, dargs in (('read', R, 'read', [t, nb], direct_args), ('write', W, 'write', [val, t, nb], [val] + direct_args)):
+            # first bit scripted (the sign of an int, the value of a bool): both orders of magnitude bits stay symbolic
+            script = [1] if side == 'read' else None
+            fi, res = call(repo, cls, gen, gargs, script=script)
+            fi_d, res_d = call(repo, cls, side + '_' + t, dargs, script=script)
+            r, err = single(res, fi, '%s(%s)' % (gen, ', '.join(repr(a) for a in gargs)))
+            rd, errd = single(res_d, fi_d, '%s_%s(%s)' % (side, t, ', '.join(repr(a) for a in dargs)))
+            if err or errd:
+                rr.fail('dispatch:%s:%s' % (side, t), fi.where, err or errd)
+                continue
+            ops = [(e[0], repr(e[1])) for e in r.events if e[0] in ('read', 'write', 'streamop', 'set')]
+            ops_d = [(e[0], repr(e[1])) for e in rd.events if e[0] in ('read', 'write', 'streamop', 'set')]
+            if ops != ops_d or repr(r.value) != repr(rd.value):
+                rr.fail('dispatch:%s:%s' % (side, t), fi.where, '%s(%s) performs %s and returns %r; %s_%s(%s) performs %s and returns %r: the generic dispatcher does not '
+                        'treat type %r as the typed method does' % (gen, ', '.join(repr(a) for a in gargs), ops, r.value, side, t, ', '.join(repr(a) for a in dargs),
+                                                                    ops_d, rd.value, t), witness={'type': t, 'nbits': nb})
     # a bytes value shorter / longer than the field: the dispatcher must hand the field width on, so that the value is padded / cut
     for val, nb in ((b'AB', 32), (b'ABCDEF', 32), (b'', 16)):
         fi2, res2 = call(repo, W, 'write', [val, 'bytes', nb])
